@@ -476,25 +476,31 @@ func PromoteOptionsToConstructor(selector Selector, optionNames []string) Rewrit
 					continue
 				}
 
-				if len(opt.Args) == 0 || len(opt.Assignments) == 0 {
-					continue
+				// every argument of the option becomes a (non-nullable) constructor
+				// argument, every assignment a constructor assignment. The
+				// constructor gets its own copies: sharing the option's would let
+				// later option rules (rename_arguments, ...) rewrite the
+				// constructor by accident.
+				constructorArgs := make(map[string]ast.Argument, len(opt.Args))
+				for _, optArg := range opt.Args {
+					arg := optArg.DeepCopy()
+					arg.Type.Nullable = false
+
+					constructorArgs[arg.Name] = arg
+					builders[i].Constructor.Args = append(builders[i].Constructor.Args, arg)
 				}
 
-				// TODO: do it for every argument/assignment?
-				arg := opt.Args[0].DeepCopy()
-				arg.Type.Nullable = false
+				for _, optAssignment := range opt.Assignments {
+					assignment := optAssignment.DeepCopy()
+					if assignment.Value.Argument != nil {
+						if constructorArg, found := constructorArgs[assignment.Value.Argument.Name]; found {
+							argCopy := constructorArg.DeepCopy()
+							assignment.Value.Argument = &argCopy
+						}
+					}
 
-				// the constructor gets its own copy of the assignment, fed by its
-				// own argument: sharing the option's would let later option rules
-				// (rename_arguments, ...) rewrite the constructor by accident.
-				assignment := opt.Assignments[0].DeepCopy()
-				if assignment.Value.Argument != nil && assignment.Value.Argument.Name == arg.Name {
-					constructorArg := arg.DeepCopy()
-					assignment.Value.Argument = &constructorArg
+					builders[i].Constructor.Assignments = append(builders[i].Constructor.Assignments, assignment)
 				}
-
-				builders[i].Constructor.Args = append(builders[i].Constructor.Args, arg)
-				builders[i].Constructor.Assignments = append(builders[i].Constructor.Assignments, assignment)
 
 				builders[i].AddToVeneerTrail(fmt.Sprintf("PromoteOptionsToConstructor[%s]", optName))
 			}
